@@ -175,6 +175,35 @@ func init() {
 		}
 		return w.ret(binFuncs[f[1]](s, t, o...))
 	}
+	// reduce:<sum|min|max>:<a>:<axes>   (axes "_" = none given = all); reports the axes slice afterwards
+	progOps["reduce"] = func(w *world, f []string) string {
+		a := w.ts[atoi(f[2])]
+		axes := ints(f[3])
+		var r tensor.Tensor
+		var err error
+		switch f[1] {
+		case "sum":
+			r, err = tensor.Sum(a, axes...)
+		case "min":
+			r, err = a.Min(axes...)
+		case "max":
+			r, err = a.Max(axes...)
+		}
+		st := w.ret(r, err)
+		return st + ";ax=" + fints(axes)
+	}
+	// arg:<max|min>:<a>:<axis>
+	progOps["arg"] = func(w *world, f []string) string {
+		a := w.ts[atoi(f[2])]
+		var r tensor.Tensor
+		var err error
+		if f[1] == "max" {
+			r, err = tensor.Argmax(a, atoi(f[3]))
+		} else {
+			r, err = tensor.Argmin(a, atoi(f[3]))
+		}
+		return w.ret(r, err)
+	}
 	// un:<op>:<a>:<mode>
 	progOps["un"] = func(w *world, f []string) string {
 		a := w.ts[atoi(f[2])]
